@@ -288,7 +288,7 @@ def directed_scenarios():
         dnew = copy.deepcopy(pg["defs"][x]); dnew["const"] = 2000 + k
         tmp = copy.deepcopy(pg); tmp["defs"][x] = dnew
         return [["exec", dnew["where"], vprogs.render_def(x, dnew, tmp, "vpk"), {"refused": x, "def": dnew}]]
-    for variant in ("edit-under-lock", "clone-asked-first", "wrapper-under-lock", "clone-under-lock", "other-cluster"):
+    for variant in ("edit-under-lock", "clone-asked-first", "wrapper-under-lock", "clone-under-lock", "never-asked-before-lock", "other-cluster"):
         l0 = dict(defs={"V1": dict(kind="var", where="mod", value=1), "m1": f("memento", [["V1", "bare"]]), "m2": f("memento", [["m1", "bare"]]),
                         "m3": f("memento", [["m2", "bare"]])}, order=["V1", "m1", "m2", "m3"])
         for d in l0["defs"].values():
@@ -323,6 +323,15 @@ def directed_scenarios():
             evs += [[["edit", "var", "V1"], c01.event_actions(l0, l1), lk(l1), dict(cl_)],
                     [["unlock"], [["lock", 0]], l1, dict(cl_), ["c1", "c3"]],
                     [["unlock"], [], l1, dict(cl_), None]]
+        elif variant == "never-asked-before-lock":
+            # nobody was asked before the lock: what is frozen is the version computed when each function was registered (no function
+            # of this program refers to its own name, so the model's registration agrees with the code's)
+            l0["skip_initial_query"] = True
+            evs = [[["lock"], [["lock", 1]], lk(l0), {}, []],
+                   [["edit", "var", "V1"], c01.event_actions(l0, l1), lk(l1), {}, ["m3", "m1"]],
+                   [["edit", "var", "V1"], [], lk(l1), {}, None],
+                   [["unlock"], [["lock", 0]], l1, {}, ["m2"]],
+                   [["unlock"], [], l1, {}, None]]
         elif variant == "wrapper-under-lock":
             evs = [[["lock"], [["lock", 1]], lk(l0), {}],
                    [["edit", "var", "V1"], c01.event_actions(l0, l1), lk(l1), {}, []],
@@ -683,7 +692,8 @@ def scenario(prog, events, root, with_model=False):
     """run all events in one interpreter, querying after each; compare with fresh processes"""
     sub = tempfile.mkdtemp(prefix="ip_", dir=root)
     vprogs.write_package(prog, sub, "vpk")
-    acts = [["import"], ["versions"]]
+    # (a program may ask nobody at the start: its functions then only have the version computed when they were registered)
+    acts = [["import"], ["versions", []] if prog.get("skip_initial_query") else ["versions"]]
     marks = [(None, 1, prog, {})]
     for ev in events:
         desc, a, after, clones = ev[:4]
